@@ -233,7 +233,7 @@ class Runner:
         lags = list(itertools.islice(iter(sorted(itertools.product(lrange, repeat=len(wfl)), key=lambda t: (sum(t), t))), 3000)) if wfl else [()]
         sm = r.summary()
         bailed_real = sm.get('exit') not in ('ok', 'error')
-        real = {'fail': r.rc != 0, 'content': self.norm(br.ser_content(st2), hide=bailed_real)}
+        real = {'fail': r.rc != 0, 'content': self.norm(br.ser_content(st2))}
         if not bailed_real:
             real.update({'nerr': int(sm.get('error_file', 0)), 'nio': int(sm.get('error_io', 0)), 'nsil': int(sm.get('error_data', 0))})
         first = None
@@ -258,9 +258,9 @@ class Runner:
                 # nothing is written at exit: the content on disk is the pre-loop state = the model's input (stop = 0)
                 req0 = list(req); req0[7] = '0'
                 o0 = run_lines(self.model, [' '.join(req0)], shards=1)[0].split()
-                m['content'] = self.norm(o0[o0.index('C'):o0.index('P', o0.index('C'))], hide=bailed_real)
+                m['content'] = self.norm(o0[o0.index('C'):o0.index('P', o0.index('C'))])
             else:
-                m['content'] = self.norm(toks[i:j], hide=bailed_real)
+                m['content'] = self.norm(toks[i:j])
             mp, _ = br.parse_parity(toks, j)
             agree = m['fail'] == real['fail'] and m['content'] == real['content'] and m['bailed'] == bailed_real and \
                 (bailed_real or (m['nerr'], m['nio'], m['nsil']) == (real['nerr'], real['nio'], real['nsil']))
@@ -287,18 +287,17 @@ class Runner:
             {'case': rep, 'real_content': ' '.join(real['content']), 'model_content': ' '.join(m['content']), 'request': ' '.join(req)[:6000]}, no_input=True)
 
     @staticmethod
-    def norm(t, hide=False):
-        """content tokens with info times reduced to presence and the hashes of non-BLK blocks hidden (a skipped CHG block
-        carries the hash of the new data, which the harness cannot name independently).  hide=True (runs that bailed): hide
-        them even when ZERO/INVALID -- on a fatal error the C has already copied the new hash into the CHG blocks of the disks
-        whose task was returned before the failing one (arrival order: C13), the model drops them"""
+    def norm(t):
+        """content tokens with info times reduced to presence and the hashes of non-BLK blocks reduced to ZERO / INVALID / other
+        (the harness cannot name the hash of not yet synced data independently).  Since /repo 0d034b0 a skipped or aborted
+        stripe stores no computed hash, so nothing else needs hiding"""
         t = list(t)
         out = []
         k = 0
         kinfo = t.index('INFO')
         while k < kinfo:
             if t[k] in ('g', 'p') and k + 2 < kinfo:
-                out += [t[k], t[k + 1], t[k + 2] if (t[k + 2] in ('Z', 'I') and not hide) else '?']
+                out += [t[k], t[k + 1], t[k + 2] if t[k + 2] in ('Z', 'I') else '?']
                 k += 3
             else:
                 out.append(t[k]); k += 1
@@ -311,6 +310,106 @@ class Runner:
         return out
 
     # ---------------------------------------------------------------------------------------------- scrub
+    def scrub_combo_case(self, case):
+        """an EIO on one disk AND a non-I/O error (the file of another disk removed since the sync) in the same stripe of one scrub:
+        the stripe must still be marked bad (scrub.c:594-613: silent/io error wins over the generic error).
+        case = dict(cache, eio=(disk, sub, j), removed=(disk, sub))"""
+        scn, chk = self.scn, self.chk
+        if len(chk.violations) > 8:
+            return
+        a = scn.build()
+        rep = dict(case); rep.update(scn.describe())
+        try:
+            r = a.run('sync')
+            st1 = a.content()
+            d, sub, j = case['eio']
+            lst = file_stripes(a, st1, d, sub)
+            other = set(file_stripes(a, st1, *case['removed']))
+            if j > len(lst) or lst[j - 1] not in other:
+                return
+            pos = lst[j - 1]
+            os.unlink(a.path(*case['removed']))
+            log = os.path.join(a.root, 'fault.log')
+            r = a.run('scrub', '-p', 'full', '--test-io-cache', str(case['cache']),
+                      shim_env={'VSHIM_FAIL': 'pread:%s:%d:%d' % (os.path.join(a.root, d, sub), j, EIO), 'VSHIM_LOG': log})
+            self.stats['runs'] += 1
+            if not (os.path.exists(log) and 'INJECTED-ERROR' in open(log, errors='replace').read()):
+                self.stats['not_injected'] += 1
+                return
+            self.stats['scrub_faults'] += 1
+            st2 = a.content()
+            v = stripe_view(a, st2)[pos]
+            rep.update({'rc': r.rc, 'summary': r.summary(), 'stripe': pos})
+            if r.rc == 0:
+                chk.violation('scrub_combo_exit', 'scrub: EIO on %s and a missing file on %s in stripe %d but exit status 0' % (d, case['removed'][0], pos), rep)
+            if not (v['info'] and v['info']['bad']):
+                chk.violation('scrub_combo_notbad', 'scrub: EIO on %s together with a file error (%s:%s removed) in stripe %d: the stripe is not marked bad (io_cache %d)' % (
+                    d, case['removed'][0], case['removed'][1], pos, case['cache']), rep)
+            elif int(a.run('status').summary().get('has_bad', 0) or 0) < 1:
+                chk.violation('scrub_combo_status', 'scrub: stripe %d marked bad but status shows has_bad:0' % pos, rep)
+            else:
+                self.stats['satisfied'] += 1
+            if self.model:
+                i1 = st1['info'][pos]
+                order = {m['name']: m['pos'] for m in st1['maps']}
+                stripes1, _ = a.stripes(st1)
+                dt = []
+                for dp in range(a.nd):
+                    blk = stripes1.get(pos, {}).get(dp)
+                    isfile = blk is not None and blk[0] != 'DEL'
+                    out = 'I' if order.get(d) == dp else ('E' if order.get(case['removed'][0]) == dp else 'O1')
+                    dt += ['1', '0', '1' if isfile else '0', '0', '1' if isfile else '0', out]
+                req = ['scrub1', '100', '0', '7', str(i1['time']), str(int(i1['bad'])), str(int(i1['rehash'])), str(int(i1['justsynced'])),
+                       'D', str(a.nd)] + dt + ['L', str(a.np)] + ['P1'] * a.np
+                out = run_lines(self.model, [' '.join(req)], shards=1)[0].split()
+                if out[:1] == ['ok'] and v['info'] and (out[2] == '1') != bool(v['info']['bad']):
+                    chk.violation('drift_scrub', 'MODEL-DRIFT: scrub stripe model says bad=%s, the binary recorded %s (EIO + file error in one stripe)' % (out[2], v['info']), rep, no_input=True)
+                elif out[:1] == ['ok']:
+                    self.stats['model_compared'] += 1
+        finally:
+            drop(a)
+
+    def scrub_allfail_case(self, case):
+        """every read of one data file fails with EIO, the file having a block in EVERY stripe of the array: no stripe of the scrub is
+        clean.  The bad marks must nevertheless be SAVED (decode the content after the run); with -L the marks of the stripes
+        processed before the limit too.  case = dict(cache, file=(disk, sub), limit or None)"""
+        scn, chk = self.scn, self.chk
+        if len(chk.violations) > 8:
+            return
+        a = scn.build()
+        rep = dict(case); rep.update(scn.describe())
+        try:
+            a.run('sync')
+            st1 = a.content()
+            d, sub = case['file']
+            lst = file_stripes(a, st1, d, sub)
+            allst = sorted(p for p, v in stripe_view(a, st1).items() if v['hasfile'])
+            if not lst or sorted(lst) != allst or len(lst) > 16:
+                return
+            spec = ','.join('pread:%s:%d:%d' % (os.path.join(a.root, d, sub), k, EIO) for k in range(1, len(lst) + 1))
+            opts = ['-L', str(case['limit'])] if case.get('limit') else []
+            r = a.run('scrub', '-p', 'full', '--test-io-cache', str(case['cache']), *opts, shim_env={'VSHIM_FAIL': spec})
+            self.stats['runs'] += 1
+            self.stats['scrub_faults'] += 1
+            st2 = a.content()
+            view = stripe_view(a, st2)
+            bad = [p for p in allst if view[p]['info'] and view[p]['info']['bad']]
+            lim = case.get('limit')
+            # without a limit every stripe is marked; with -L n the run stops AT the n-th error: the n-1 stripes before it are marked
+            expect = allst if not lim else allst[:lim - 1]
+            rep.update({'rc': r.rc, 'summary': r.summary(), 'bad_recorded': bad, 'expected_bad': expect})
+            if r.rc == 0:
+                chk.violation('scrub_allfail_exit', 'scrub with every read of %s:%s failing ends with exit status 0' % (d, sub), rep)
+            if [p for p in expect if p not in bad]:
+                chk.violation('scrub_allfail_notsaved', 'scrub%s with every read of %s:%s failing (no clean stripe): the content file records stripes %s as bad, expected %s (io_cache %d)' % (
+                    ' -L %d' % lim if lim else '', d, sub, bad, expect, case['cache']), rep)
+            elif int(a.run('status').summary().get('has_bad', 0) or 0) < len(expect):
+                chk.violation('scrub_allfail_status', 'status shows fewer bad blocks than the %d stripes marked' % len(expect), rep)
+            else:
+                self.stats['satisfied'] += 1
+        finally:
+            drop(a)
+
     def scrub_case(self, case):
         """case = dict(cache, target=('data', disk, sub, j) | ('par', level, j), errno)"""
         scn, chk = self.scn, self.chk
@@ -516,6 +615,21 @@ def main(tier, replay=None):
         pmap(R.sync_case, sc)
         scc = scrub_cases(R.ref, scn, [caches[0], caches[-1]] if quick else caches, quick) if (gi == 0 or not quick) else []
         pmap(R.scrub_case, scc)
+        if gi == 0 or not quick:
+            fl = sorted(R.ref.files)
+            combo, allf = [], []
+            for cache in ([caches[0], caches[-1]] if quick else caches):
+                for (d, sub) in fl:
+                    nblk_f = len(file_stripes(None, R.ref.st_final, d, sub))
+                    others = [f for f in fl if f[0] != d]
+                    for j in sorted({1, (nblk_f + 1) // 2, nblk_f} - {0}) if quick else range(1, nblk_f + 1):
+                        for o in others[:1 if quick else 2]:
+                            combo.append({'cache': cache, 'eio': (d, sub, j), 'removed': o})
+                    allf.append({'cache': cache, 'file': (d, sub), 'limit': None})
+                    allf.append({'cache': cache, 'file': (d, sub), 'limit': 3})
+            pmap(R.scrub_combo_case, combo)
+            pmap(R.scrub_allfail_case, allf)
+            scc = scc + combo + allf
         if gi == 0:
             # replay of the Coq witnesses, one-shot (no preliminary interrupted sync), judged by the same oracle
             for wname, case in WITNESSES:
